@@ -34,6 +34,7 @@ func init() {
 				return r
 			}()),
 			ruleLineExtractor("C11.extract"),
+			ruleSegIntersectMirror("C11.mirror.seg"),
 		},
 	})
 }
